@@ -68,7 +68,8 @@ PROPS = {
         gens=["go2ir"],
         # the two Pred_* obligations: the S < L test and the canonical-encoding test of the real code (regenerated decision trees)
         theorems=reg("Voi.Props.C01", "Voi.Props.C01Concrete", "Voi.Proofs.ConcreteIface", "Voi.Proofs.GroupOrder", "Voi.Props.LatticeFuel",
-                     "Voi.Props.L0.Pred_ScMinimalVartime", "Voi.Props.L0.Pred_IsCanonicalVartime", "Voi.Props.ScMinimal"),
+                     "Voi.Props.L0.Pred_ScMinimalVartime", "Voi.Props.L0.Pred_IsCanonicalVartime", "Voi.Props.ScMinimal",
+                     "Voi.Props.PredBridgeSc", "Voi.Props.PredBridge"),
         explanation="Go VerifyWithOptions / VerifyExpandedWithOptions / crypto/ed25519.Verify vs the declarative Lean predicate Spec.Ed25519.verify",
     ),
     "C02": dict(level="proof", streams=[("K1", 1500)], configs_quick=Q4, configs_thorough=T4, theorems=reg("Voi.Props.C02", "Voi.Props.C01Concrete")),
@@ -77,20 +78,20 @@ PROPS = {
     "C04": dict(level="proof", gens=["go2ir"], streams=[("T0", 6000), ("F2", 5000)], configs_quick=["default", "purego", "force32bit"], configs_thorough=T4,
                 theorems={**IR_CORE, **L0_FIELD, **reg("Voi.Proofs.SqrtRatio")}),
     "C05": dict(level="proof", gens=["go2ir"], streams=[("S1", 4000), ("T0", 4000)], configs_quick=["default", "force32bit"], configs_thorough=T4,
-                theorems={**IR_CORE, **L0_SCALAR, **reg("Voi.Props.L0.Pred_ScMinimalVartime", "Voi.Props.ScMinimal")}),
+                theorems={**IR_CORE, **L0_SCALAR, **reg("Voi.Props.L0.Pred_ScMinimalVartime", "Voi.Props.ScMinimal", "Voi.Props.PredBridgeSc")}),
     "C07": dict(level="proof", streams=[("X1", 2500)], configs_quick=Q4, configs_thorough=T4, theorems={"Voi.Props.C07": C07_THMS}),
     "C09": dict(level="proof", streams=[("B1", 1500), ("C1", 1500)], configs_quick=Q4, configs_thorough=T4, thorough_mult=4,
                 theorems={"Voi.Props.BatchInv": BATCH_THMS, "Voi.Props.CacheInv": CACHE_THMS}),
-    "C10": dict(level="proof", streams=[("D1", 3000)], configs_quick=Q4, configs_thorough=T4, gens=["go2ir"], theorems=reg("Voi.Props.C10", "Voi.Proofs.SqrtRatio", "Voi.Props.L0.Pred_IsCanonicalVartime")),
+    "C10": dict(level="proof", streams=[("D1", 3000)], configs_quick=Q4, configs_thorough=T4, gens=["go2ir"], theorems=reg("Voi.Props.C10", "Voi.Proofs.SqrtRatio", "Voi.Props.L0.Pred_IsCanonicalVartime", "Voi.Props.PredBridge")),
     "C11": dict(level="proof", streams=[("T1", 3000)], configs_quick=Q4, configs_thorough=T4, theorems=reg("Voi.Props.C11")),
     "C12": dict(level="proof", gens=["go2ir"], streams=[("Q1", 2500)], configs_quick=Q4, configs_thorough=T4,
-                theorems=reg("Voi.Props.C12", "Voi.Props.L0.Pred_ScMinimalVartime", "Voi.Props.ScMinimal")),
+                theorems=reg("Voi.Props.C12", "Voi.Props.L0.Pred_ScMinimalVartime", "Voi.Props.ScMinimal", "Voi.Props.PredBridgeSc")),
     "C13": dict(level="proof", streams=[("M1", 4000), ("S0", 2000)], configs_quick=Q4, configs_thorough=T4,
                 theorems={"Voi.Props.StrobeInv": STROBE_THMS}),
     "C14": dict(level="proof", gens=["consts"], streams=[("H1", 2500), ("H2", 2000), ("H3", 2000)], configs_quick=Q4, configs_thorough=T4,
                 theorems=reg("Voi.Props.C14", "Voi.Props.C14.Expand", "Voi.Props.C14.HashWF", "Voi.Props.C14.U2F", "Voi.Props.C14.Elligator", "Voi.Props.C14.Consts")),
     "C15": dict(level="proof", gens=["go2ir"], streams=[("E1", 2000), ("E2", 1500)], configs_quick=Q4, configs_thorough=T4,
-                theorems=reg("Voi.Props.C15", "Voi.Props.L0.Pred_ScMinimalVartime", "Voi.Props.ScMinimal")),
+                theorems=reg("Voi.Props.C15", "Voi.Props.L0.Pred_ScMinimalVartime", "Voi.Props.ScMinimal", "Voi.Props.PredBridgeSc")),
     "C16": dict(level="proof", streams=[("L1", 3000)], configs_quick=Q4, configs_thorough=T4,
                 theorems={"Voi.Props.LatticeInv": LAT_INV, "Voi.Props.LatticeRefine": LAT_REF, **reg("Voi.Props.LatticeFuel")}),
     "C18": dict(level="proof", streams=[("C2", 3000), ("C1", 800),
